@@ -5,8 +5,10 @@ Two monitors, both on two real nfc.llcp.llc.LogicalLinkController objects joined
 1. lock-step histories (single-threaded, deterministic): application calls on both ends
    (send(MSG_DONTWAIT), recv after poll("recv",0), poll, setsockopt(SO_RCVBSY), close) interleaved with strictly
    alternating link turns; bounded-exhaustive enumeration of short histories and long random walks over
-   RW 0..15 / connection MIU 128..2175 / aggregation on-off / which end connects / "early" (the accepting end may
-   act before the CC has left).
+   RW 0..15 / connection MIU 128..2175 / aggregation on-off / which end connects / "early" set-ups: 1 = the
+   accepting end may act before the CC has left, 2 = additionally the thread inside connect() runs again only at an
+   explicit step J (it "was not scheduled" for some link turns). connect()/close() block by design: their waits
+   turn the link (PumpCond) or, in the early set-ups, sit in a helper thread whose progress the history controls.
 2. thread stress: both real run() loops, one blocking sender and one blocking receiver thread per end,
    yield injection through sys.monitoring LINE events in nfc/llcp/tco.py and llc.py.
 
@@ -37,13 +39,16 @@ from vf.ref.window_model import WindowModel
 
 ID = "C05"
 LEVEL = "exploration"
-RULE = ("cases = (a) every history of length <= depth over {link turn, send/recv/busy-toggle/close on either end} "
-        "for 12 window/aggregation/set-up configurations (a history is cut at its first no-op step: those are "
-        "covered by the shorter history), (b) random walks of 2000+ steps with traffic profiles that change every "
-        "~100 steps over random RW 0..15, connection MIU 128..2175, link MIU, aggregation, connecting end, "
+RULE = ("cases = (a) every history of length <= depth (quick 6, thorough 6 over the full and 8 over a reduced alphabet) "
+        "over {link turn, send/recv/busy-toggle/close on either end, 'connect() returns'} for 12 "
+        "window/aggregation/set-up configurations; a history is cut at its first no-op step (covered by the shorter "
+        "history) and calls on different ends without a link turn in between are executed in one order only "
+        "(they commute), (b) random walks of 2000 (thorough 5000) steps with traffic profiles that change every "
+        "~100 steps over random RW 0..15, connection MIU 128..2175, link MIU, aggregation, connecting end, 20% of "
+        "them with application calls on the accepting end before the CC left / before connect() returned, "
         "(c) threaded runs with blocking calls, 50-500 messages per direction, randomised yields; a case is distinct "
-        "by (configuration, operation list) resp. (configuration, schedule signature) and non-trivial when at "
-        "least one I PDU went through the window model and one recv() was compared with the accepted sends")
+        "by (configuration, operation list) resp. (configuration incl. seeds) and non-trivial when at least one "
+        "I PDU went through the window model and one recv() was compared with the accepted sends")
 ASSUMPTIONS = ["vf.ref.llcp_ref decodes I/RR/RNR/CONNECT/CC as LLCP 1.3 section 4 defines them",
                "vf.ref.window_model is a faithful reading of the LLCP 1.3 sliding window rules (N(S) from 0, "
                "N(R) acknowledges, at most RW(receiver) unacknowledged I PDUs)",
@@ -951,6 +956,9 @@ class WireWatch:
         self.ann_busy = {"A": False, "B": False}
         self.undecodable = 0
         self.first = {}                          # frame number of the first CONNECT / CC
+        self.seq = 0                             # running number of leaf PDUs (order inside aggregated frames)
+        self.first_seq = {}
+        self.first_i_seq = {}
 
     def __call__(self, direction, data, _pdu=None):
         x = direction[0]
@@ -969,6 +977,10 @@ class WireWatch:
             if t == "SYMM":
                 continue
             self.first.setdefault(t, self.frame)
+            self.seq += 1
+            self.first_seq.setdefault(t, self.seq)
+            if t == "I":
+                self.first_i_seq.setdefault(x, self.seq)
             if t == "RNR":
                 if not self.ann_busy[x]:
                     st.inc("rnr_episodes")
@@ -1235,8 +1247,8 @@ def threaded_run(cfg, R, rng, st, budget=60.0):
             viol.append(("miu/refused-message-transmitted", "%d oversize messages on the wire" % len(refused_on_wire)))
     st.inc("emsgsize_checked", over["checked"])
     first_i = watch.i_frame[s][0] if watch.i_frame[s] else None
-    if (viol and first_i is not None and "CC" in watch.first and not viol[0][0].startswith("window/pdu-before-cc")
-            and watch.first["CC"] < first_i <= marks.get("connect_returned", 1 << 60)):
+    if (viol and first_i is not None and "CC" in watch.first_seq and not viol[0][0].startswith("window/pdu-before-cc")
+            and watch.first_seq["CC"] < watch.first_i_seq[s] and first_i <= marks.get("connect_returned", 1 << 60)):
         # same structural context as in the lock-step monitor: the accepting end's first I PDU was transmitted after
         # the CC but before the peer's connect() had returned
         viol = [(sig if sig.endswith("-returned") else sig + "/i-after-cc-before-connect-returned", what) for sig, what in viol]
@@ -1312,7 +1324,7 @@ def run_threaded(desc, R, rng):
         if time.time() - t0 > desc["budget"]:
             st.inc("threaded_runs_skipped_budget")      # coverage only, never a verdict
             continue
-        cfg = random_thread_cfg(rng, desc, greet=(i == desc.get("greet_run", -1)))
+        cfg = random_thread_cfg(rng, desc, greet=(i % 6 == desc.get("greet_run", -1)))
         st.inc("threaded_runs")
         try:
             viol = threaded_run(cfg, R, rng, st)
